@@ -291,13 +291,13 @@ func runC04(p *Prog, r *Report) {
 	isSet := orPred(isCallObj(setOutcome), isCallObj(setOutcomeL))
 	rts := p.Func(pkgCC, "", "runTestCasesForServer")
 	expectFlags := map[string][]bool{ // enclosing function -> flags (sorted false<true)
-		"(*internal/app/connectconformance.testResults).failedToStart":              {true},
-		"(*internal/app/connectconformance.testResults).failRemaining":              {true},
-		"(*internal/app/connectconformance.testResults).failed":                     {false},
-		"(*internal/app/connectconformance.testResults).assert":                     {false},
+		"(*internal/app/connectconformance.testResults).failedToStart":             {true},
+		"(*internal/app/connectconformance.testResults).failRemaining":             {true},
+		"(*internal/app/connectconformance.testResults).failed":                    {false},
+		"(*internal/app/connectconformance.testResults).assert":                    {false},
 		"(*internal/app/connectconformance.testResults).processSidebandInfoLocked": {false},
-		"internal/app/connectconformance.runTestCasesForServer":                     {true, true},
-		"internal/app/connectconformance.runTestCasesForServer$3":                   {false, true},
+		"internal/app/connectconformance.runTestCasesForServer":                    {true, true},
+		"internal/app/connectconformance.runTestCasesForServer$3":                  {false, true},
 	}
 	gotFlags := map[string][]bool{}
 	for _, fn := range p.RepoFuncs() {
@@ -400,8 +400,14 @@ func runC04(p *Prog, r *Report) {
 	} else {
 		r.Func(funcName(ps))
 		outcomes := p.Field(pkgCC, "testResults", "outcomes")
-		found := func(a Atom) bool { m, v := boolTestOn(a, func(x ssa.Value) bool { return commaOkOfLookupOn(x, outcomes) }); return m && v }
-		missing := func(a Atom) bool { m, v := boolTestOn(a, func(x ssa.Value) bool { return commaOkOfLookupOn(x, outcomes) }); return m && !v }
+		found := func(a Atom) bool {
+			m, v := boolTestOn(a, func(x ssa.Value) bool { return commaOkOfLookupOn(x, outcomes) })
+			return m && v
+		}
+		missing := func(a Atom) bool {
+			m, v := boolTestOn(a, func(x ssa.Value) bool { return commaOkOfLookupOn(x, outcomes) })
+			return m && !v
+		}
 		okG := true
 		for _, c := range findInstrs(ps, isSet) {
 			r.Sites++
@@ -522,14 +528,20 @@ func runC04(p *Prog, r *Report) {
 			}
 			if isCallToNamed(c, "os", "", "Exit") {
 				if k, isK := constInt(c.Args[0]); isK && k != 0 && guardedBy(in, func(a Atom) bool {
-					m, v := boolTestOn(a, func(x ssa.Value) bool { ex, ok := x.(*ssa.Extract); return ok && ex.Tuple == ssa.Value(runCall) && ex.Index == 0 })
+					m, v := boolTestOn(a, func(x ssa.Value) bool {
+						ex, ok := x.(*ssa.Extract)
+						return ok && ex.Tuple == ssa.Value(runCall) && ex.Index == 0
+					})
 					return m && !v
 				}) {
 					okExit = true
 				}
 			}
 			if guardedBy(in, func(a Atom) bool {
-				m, isNil := nilTestOn(a, func(x ssa.Value) bool { ex, ok := x.(*ssa.Extract); return ok && ex.Tuple == ssa.Value(runCall) && ex.Index == 1 })
+				m, isNil := nilTestOn(a, func(x ssa.Value) bool {
+					ex, ok := x.(*ssa.Extract)
+					return ok && ex.Tuple == ssa.Value(runCall) && ex.Index == 1
+				})
 				return m && !isNil
 			}) && reachesInstr(runCall, in) {
 				if _, isB := c.Value.(*ssa.Builtin); !isB {
